@@ -22,6 +22,9 @@ os.environ["PYTHONWARNINGS"] = "ignore"
 VERBS = ("should", "should_only", "should_not")
 COLLISION_FREE = ["m0", "m1", "m2", "m3", "m4", "m5", "m6", "m7", "m8", "m9"]
 ADVERSARIAL = ["a", "ab", "a_b", "aa", "b", "ba", "a1", "_a", "A"]
+# names with characters that sort BEFORE the dot ('-', '+', ' ', '$', '#'): "r.a" < "r.a-b" < "r.a.x" - a sibling between a package and its
+# sub modules in sorted order.  Legal as directory names and as names of directly constructed graphs (never written into import statements).
+SORT_TRICKY = ["a", "a-b", "a+b", "a b", "a$", "a#1", "ab", "b", "b-"]
 # large / unusual: 30 numbered names (m2 < m10 numerically, not lexicographically), non-ASCII identifiers, a very long name
 LARGE_POOL = ["m%d" % i for i in range(30)] + ["pkg_\u00e9", "\u00df_mod", "\u03b4elta", "long_" + "x" * 60, "Z9", "_"]
 # non-ASCII names, some of them not stable under Unicode normalisation (micro sign, fi ligature, combining accent, full-width letter)
@@ -810,7 +813,7 @@ def gen_random_cases(rng, n, strict, mode="direct", pools=(COLLISION_FREE, ADVER
     if large:
         mode = "direct"
     while len(cases) < n:
-        pool = LARGE_POOL if large else rng.choice(pools)
+        pool = LARGE_POOL if large else rng.choice(tuple(pools) + (SORT_TRICKY,)) if forest else rng.choice(pools)
         nodes = rand_tree(rng, pool, max_nodes=rng.choice([25, 35, 45]), max_depth=rng.choice([5, 7, 10])) if large else \
             rand_tree(rng, pool, max_nodes=rng.choice([5, 8, 12]))
         if forest:
